@@ -62,7 +62,7 @@ PROPS = {
                       (["race"], "big", 0.2)],
                 assumptions=COMMON_ASSUME + ["racing zero futures is outside C06 (the real code divides by zero in "
                                              "Indexer::iter); the generator uses n >= 1"]),
-    "C07": dict(ktie=["RaceOkA", "RaceOkV"], monitors=["C07", "NP", "LV"], monitor="C07", modules=["C07", "C01"], proj="FUN", cfgs=ALL3, quick=1500, thorough=20000,
+    "C07": dict(ktie=["RaceOkA", "RaceOkV", "RaceOkT"], monitors=["C07", "NP", "LV"], monitor="C07", modules=["C07", "C01"], proj="FUN", cfgs=ALL3, quick=1500, thorough=20000,
                 gens=[(["race_ok"], "drain", 0.5), (["race_ok"], "exh", 1.0), (["race_ok"], "random", 1.0), (["race_ok"], "errs", 0.8), (["race_ok"], "stuck", 0.2),
                       (["race_ok"], "panic", 0.2), (["race_ok"], "big", 0.08), (["race_ok"], "waves", 0.2)],
                 assumptions=COMMON_ASSUME),
